@@ -33,6 +33,10 @@ struct PJ : decltype(au::Kelvins{} * au::mag<2>()) { static constexpr auto origi
 // the Celsius origin (273.15 K) written in other units than Celsius writes it in (tie-break arm of CommonOrigin)
 struct PK : au::Kelvins { static constexpr auto origin() { return au::milli(au::kelvins)(273150); } };
 struct PL : decltype(au::Kelvins{} * au::mag<3>() / au::mag<7>()) { static constexpr auto origin() { return (au::kelvins / au::mag<20>())(5463); } };
+// origins written in the same unit and rep as the Celsius origin (centi-kelvins, int) but with other values: equal origin
+// *types* must not be taken for equal origins
+struct PM : au::Kelvins { static constexpr auto origin() { return au::centi(au::kelvins)(1000); } };                                   // 10 K
+struct PN : decltype(au::Kelvins{} / au::mag<100>()) { static constexpr auto origin() { return au::centi(au::kelvins)(27316); } };     // 273.16 K, scale 1/100
 // a *named* unit of scale 1/1000 K whose origin (the Fahrenheit one) lies between those of equal-scale anonymous units
 struct FmK : decltype(au::Fahrenheit{} * au::mag<9>() / au::mag<5000>()) {};
 %(GEN2)s
@@ -138,11 +142,12 @@ def alphabet(tier):
            pt("C/1000", "decltype(au::Celsius{} / au::mag<1000>())", Fr(1, 1000), Fr(27315, 100), (CK, 27315), named=False),
            pt("K/1000", "decltype(au::Kelvins{} / au::mag<1000>())", Fr(1, 1000), 0, None, named=False),
            pt("F*9/5000", "decltype(au::Fahrenheit{} * au::mag<9>() / au::mag<5000>())", Fr(1, 1000), Fr(45967, 180), (CR, 45967), named=False)]
+    sameotype = [pt("PM", "gen::PM", 1, 10, (CK, 1000)), pt("PN", "gen::PN", Fr(1, 100), Fr(27316, 100), (CK, 27316))]
     if tier == "quick":
         main = lib[:6] + [lib[6], lib[8]] + gen[:6] + gen[8:]
     else:
         main = lib + gen
-    return main, lib[:6], special + cyc, GEN2
+    return main, lib[:6], special + cyc + sameotype, GEN2
 
 
 def build_lists(tier, main, lib6, special, g2):
